@@ -614,11 +614,6 @@ Qed.
 
 (* ------------------------------------------------------------------ RLP.decodeString *)
 
-Lemma be_val_uint l : be_val l = be_uint l.
-Proof.
-  unfold be_val, be_uint. generalize 0. induction l as [|x l IH]; intro a; simpl; [reflexivity|apply IH].
-Qed.
-
 Lemma slice_app_firstn pre rest n :
   0 <= n <= len rest ->
   slice (pre ++ rest) (len pre) (len pre + n) = Ok (firstn (Z.to_nat n) rest).
@@ -654,81 +649,20 @@ Proof.
     + rewrite <- !len_blen, <- Esz. decide_b (sz <=? 55) false. cbv zeta. reflexivity.
 Qed.
 
-Lemma header_huge hb b sz h :
-  header true (b :: hb) sz -> h = 1 + len hb -> 2 ^ 63 <= h + sz ->
-  b = 191 /\ huge_len_at 9 hb.
-Proof.
-  intros H Hh Hov.
-  pose proof (header_len _ _ _ H) as [Hl Hsz]. rewrite len_cons in Hl. rewrite ?max_int_eq in Hsz.
-  inversion H as [b' sz' Hs Eb|b' sz' Hs Eb|b' sz' Hs Eb E1 E2|b' sz' Hs Eb]; subst.
-  - rewrite len_nil in Hov. lia.
-  - pose proof (be_enc_len sz ltac:(lia)) as Hlen.
-    pose proof (be_enc_uint sz ltac:(lia)) as Hu.
-    pose proof (be_enc_fuel_bytes 8 sz) as Hb. fold (be_enc sz) in Hb.
-    pose proof (be_uint_bounds _ Hb) as Hbd. rewrite Hu in Hbd.
-    assert (Hl8 : len (be_enc sz) = 8).
-    { destruct (Z_lt_dec (len (be_enc sz)) 8) as [L|L]; [|lia]. exfalso.
-      assert (256 ^ len (be_enc sz) <= 256 ^ 7) by (apply Z.pow_le_mono_r; lia).
-      change (256 ^ 7) with (2 ^ 56) in *. lia. }
-    split; [rewrite <- len_blen; lia|].
-    unfold huge_len_at. rewrite be_val_uint, Hu, <- len_blen. repeat split; try lia.
-    intros x r E. eapply (be_enc_fuel_hd 8 sz); [rewrite pow256_8; lia|exact E].
-Qed.
-
-Lemma huge_read_hdr b l rest :
-  b = 191 \/ b = 255 -> bytes l -> blen l = 8 -> (forall x r, l = x :: r -> x <> 0) ->
-  be_val l <= 2 ^ 63 - 1 ->
-  read_hdr b (l ++ rest) = Ok (b <=? 191, 9, be_val l).
-Proof.
-  intros Hb Hl H8 Hnz Hmax. rewrite <- len_blen in H8. rewrite be_val_uint in *.
-  rewrite read_hdr_long_eq by lia.
-  replace (if b <=? 191 then b - 183 else b - 247) with (len l)
-    by (destruct Hb; subst b; simpl; lia).
-  unfold read_hdr_long.
-  destruct l as [|l0 t]; [rewrite len_nil in H8; lia|].
-  simpl app. cbv iota. rewrite H8. simpl (8 =? 1). cbv iota.
-  assert (l0 <> 0) by (eapply Hnz; reflexivity).
-  decide_b (l0 =? 0) false.
-  change (l0 :: t ++ rest) with ((l0 :: t) ++ rest). rewrite len_app, H8.
-  pose proof (len_nonneg rest). decide_b (8 >? 8 + len rest) false. cbv zeta.
-  rewrite <- H8. rewrite firstn_len_app. rewrite ?max_int_eq.
-  decide_b (be_uint (l0 :: t) >? 2 ^ 63 - 1) false. rewrite H8. reflexivity.
-Qed.
-
-Lemma rlp_string_crash_complete inp :
-  bytes inp -> len inp < 2 ^ 62 -> string_crash inp -> rlp_decode_string inp = Err Crash.
-Proof.
-  intros Hb Hlen [E|(l & rest & E & H8 & Hnz & Hmax & Hov)]; subst inp; [reflexivity|].
-  unfold rlp_decode_string, decode_string.
-  change (191 :: l ++ rest) with ([] ++ 191 :: l ++ rest) at 1. change 0 with (len []) at 1.
-  rewrite read_size_app by assumption.
-  apply bytes_cons in Hb. destruct Hb as [_ Hb]. apply bytes_app in Hb. destruct Hb as [Hbl _].
-  rewrite (huge_read_hdr 191 l rest) by (auto; lia).
-  rewrite be_val_uint in *.
-  pose proof (be_uint_bounds l Hbl) as Hbd.
-  cbn [shift_hdr bind negb]. rewrite len_nil. simpl (0 + 9). simpl (191 <=? 191). cbn [negb].
-  decide_b (be_uint l =? 1) false. cbn [andb bind].
-  rewrite (wrap_int_ovf (9 + be_uint l)) by lia.
-  pose proof (len_nonneg (191 :: l ++ rest)).
-  decide_b (9 + be_uint l - 2 ^ 64 >? len (191 :: l ++ rest)) false.
-  rewrite slice_crash by lia. reflexivity.
-Qed.
-
 Definition string_outcome (inp : list Z) (r : res (list Z)) : Prop :=
   r = Err UserOther \/
-  (exists p, r = Ok p /\ canonical_string inp p) \/
-  (r = Err Crash /\ string_crash inp).
+  (exists p, r = Ok p /\ canonical_string inp p).
 
 Lemma rlp_string_cases inp :
   bytes inp -> len inp < 2 ^ 62 -> string_outcome inp (rlp_decode_string inp).
 Proof.
-  intros Hb Hlen. destruct inp as [|b rest]; [unfold string_outcome; left; reflexivity|].
+  intros Hb Hlen. destruct inp as [|b rest]; [left; reflexivity|].
   pose proof Hb as Hb'. apply bytes_cons in Hb'. destruct Hb' as [Hbb Hbr].
   unfold rlp_decode_string, decode_string.
   change (read_size (b :: rest) 0) with (read_size ([] ++ b :: rest) (len [])).
   rewrite read_size_app by assumption. rewrite len_nil.
   destruct (read_hdr b rest) as [[[k h] sz]|e] eqn:E.
-  2:{ apply read_hdr_err in E. subst e. unfold string_outcome; unfold string_outcome; left; reflexivity. }
+  2:{ apply read_hdr_err in E. subst e. unfold string_outcome; left; reflexivity. }
   apply read_hdr_sound in E; [|assumption|assumption].
   cbn [shift_hdr bind]. rewrite Z.add_0_l.
   destruct E as [(-> & Hb127 & -> & ->)|(hb & rest' & -> & Hh & ->)].
@@ -736,9 +670,9 @@ Proof.
     cbn [negb]. simpl ((1 =? 1) && (0 =? 0)). cbv iota.
     change (idx (b :: rest) 0) with (Ok b : res Z). cbn [bind].
     destruct rest as [|y r].
-    + unfold string_outcome; right; left. exists [b]. split; [reflexivity|]. split; [assumption|].
+    + unfold string_outcome; right. exists [b]. split; [reflexivity|]. split; [assumption|].
       unfold encode_string. unfold is_byte in Hbb. decide_b (b <? 128) true. reflexivity.
-    + left. rewrite !len_cons. pose proof (len_nonneg r).
+    + unfold string_outcome; left. rewrite !len_cons. pose proof (len_nonneg r).
       decide_b (1 =? 1 + (1 + len r)) false. reflexivity.
   - destruct k; [|unfold string_outcome; left; reflexivity]. cbn [negb].
     pose proof (header_len _ _ _ Hh) as [Hhl Hsz]. rewrite len_cons in Hhl. rewrite ?max_int_eq in Hsz.
@@ -747,51 +681,42 @@ Proof.
       by (rewrite len_cons, len_app; lia).
     apply bytes_app in Hbr. destruct Hbr as [Hbhb Hbr'].
     decide_b (0 =? 1 + len hb) false. rewrite andb_false_r.
+    (* the range test, on sizes *)
+    rewrite Hlen'. replace (1 + len hb + len rest' - (1 + len hb)) with (len rest') by lia.
+    rewrite (wrap_int_id (len rest')) by lia.
+    destruct (sz >? len rest') eqn:Einc; [unfold string_outcome; left; reflexivity|]. leb_cases.
     destruct (sz =? 1) eqn:Esz.
     + (* one byte of data after a prefix: the prefix is 0x81 *)
       leb_cases. subst sz.
       inversion Hh as [b' sz' Hs Eb E1 E2|b' sz' Hs Eb|b' sz' Hs Eb|b' sz' Hs Eb]; subst; [|lia].
       change (128 + 1) with 129 in *.
       rewrite len_nil. simpl (1 + 0). simpl app.
-      destruct rest' as [|x r].
-      * unfold string_outcome; right; right. split; [reflexivity|]. unfold string_outcome; unfold string_outcome; left; reflexivity.
-      * change (idx (129 :: x :: r) 1) with (idx ([129] ++ x :: r) (len [129])).
-        rewrite idx_app. cbn [bind].
-        unfold ByteRangeEnd. destruct (x <=? 127) eqn:Ex; [unfold string_outcome; left; reflexivity|]. leb_cases.
-        simpl (1 + 1). rewrite (wrap_int_id 2) by lia. rewrite !len_cons. pose proof (len_nonneg r).
-        decide_b (2 >? 1 + (1 + len r)) false.
-        change (slice (129 :: x :: r) 1 2) with (slice ([129] ++ (x :: r)) (len [129]) (len [129] + 1)).
-        rewrite slice_app_firstn by (rewrite len_cons; lia).
-        cbn [bind]. simpl (firstn (Z.to_nat 1) (x :: r)). simpl (2 - 0). rewrite (wrap_int_id 2) by lia.
-        destruct r as [|y r'].
-        -- unfold string_outcome; right; left. exists [x]. split; [reflexivity|]. split.
-           ++ apply bytes_cons in Hbr'. destruct Hbr' as [Hx _]. apply bytes_cons. split; [assumption|constructor].
-           ++ unfold encode_string. decide_b (x <? 128) false. reflexivity.
-        -- left. rewrite len_cons. pose proof (len_nonneg r').
-           decide_b (2 =? 1 + (1 + (1 + len r'))) false. reflexivity.
+      destruct rest' as [|x r]; [rewrite len_nil in Einc; lia|].
+      change (idx (129 :: x :: r) 1) with (idx ([129] ++ x :: r) (len [129])).
+      rewrite idx_app. cbn [bind].
+      unfold ByteRangeEnd. destruct (x <=? 127) eqn:Ex; [unfold string_outcome; left; reflexivity|]. leb_cases.
+      simpl (1 + 1). rewrite (wrap_int_id 2) by lia. rewrite !len_cons. pose proof (len_nonneg r).
+      change (slice (129 :: x :: r) 1 2) with (slice ([129] ++ (x :: r)) (len [129]) (len [129] + 1)).
+      rewrite slice_app_firstn by (rewrite len_cons; lia).
+      cbn [bind]. simpl (firstn (Z.to_nat 1) (x :: r)). simpl (2 - 0). rewrite (wrap_int_id 2) by lia.
+      destruct r as [|y r'].
+      * unfold string_outcome; right. exists [x]. split; [reflexivity|]. split.
+        -- apply bytes_cons in Hbr'. destruct Hbr' as [Hx _]. apply bytes_cons. split; [assumption|constructor].
+        -- unfold encode_string. decide_b (x <? 128) false. reflexivity.
+      * unfold string_outcome; left. rewrite len_cons. pose proof (len_nonneg r').
+        decide_b (2 =? 1 + (1 + (1 + len r'))) false. reflexivity.
     + leb_cases. cbn [bind].
-      destruct (Z_le_dec (2 ^ 63) (1 + len hb + sz)) as [Hov|Hov].
-      * (* int overflow of dataStartIndex + dataSize *)
-        unfold string_outcome; right; right.
-        destruct (header_huge hb b sz (1 + len hb) Hh eq_refl Hov) as [-> Hhuge].
-        split.
-        -- rewrite (wrap_int_ovf (1 + len hb + sz)) by lia.
-           decide_b (1 + len hb + sz - 2 ^ 64 >? len (191 :: hb ++ rest')) false.
-           rewrite slice_crash by lia. reflexivity.
-        -- right. exists hb, rest'. split; [reflexivity|assumption].
-      * rewrite (wrap_int_id (1 + len hb + sz)) by lia.
-        destruct (1 + len hb + sz >? len (b :: hb ++ rest')) eqn:Einc; [unfold string_outcome; left; reflexivity|].
-        rewrite Hlen' in Einc. leb_cases.
-        change (b :: hb ++ rest') with ((b :: hb) ++ rest').
-        replace (1 + len hb) with (len (b :: hb)) by (rewrite len_cons; lia).
-        rewrite slice_app_firstn by lia. cbn [bind].
-        rewrite len_app. rewrite (len_cons b hb). rewrite Z.sub_0_r.
-        rewrite wrap_int_id by lia.
-        destruct (1 + len hb + sz =? 1 + len hb + len rest') eqn:Etr; [|unfold string_outcome; left; reflexivity].
-        leb_cases. assert (sz = len rest') by lia. subst sz.
-        cbn [negb]. unfold string_outcome; right; left. exists rest'. rewrite firstn_len. split; [reflexivity|].
-        split; [assumption|]. symmetry. apply encode_string_header; [assumption|].
-        intros x Ex. subst rest'. rewrite len_cons, len_nil in Esz. lia.
+      rewrite (wrap_int_id (1 + len hb + sz)) by lia.
+      change (b :: hb ++ rest') with ((b :: hb) ++ rest').
+      replace (1 + len hb) with (len (b :: hb)) by (rewrite len_cons; lia).
+      rewrite slice_app_firstn by lia. cbn [bind].
+      rewrite (len_cons b hb). rewrite Z.sub_0_r.
+      rewrite wrap_int_id by lia.
+      destruct (1 + len hb + sz =? 1 + len hb + len rest') eqn:Etr; [|unfold string_outcome; left; reflexivity].
+      leb_cases. assert (sz = len rest') by lia. subst sz.
+      cbn [negb]. unfold string_outcome; right. exists rest'. rewrite firstn_len. split; [reflexivity|].
+      split; [assumption|]. symmetry. apply encode_string_header; [assumption|].
+      intros x Ex. subst rest'. rewrite len_cons, len_nil in Esz. lia.
 Qed.
 
 Lemma rlp_string_framed b hb p :
@@ -809,6 +734,8 @@ Proof.
   rewrite (read_hdr_complete true b hb (len p) p Hh).
   cbn [shift_hdr bind negb]. rewrite Z.add_0_l.
   decide_b (0 =? 1 + len hb) false. rewrite andb_false_r.
+  rewrite Hlen'. replace (1 + len hb + len p - (1 + len hb)) with (len p) by lia.
+  rewrite (wrap_int_id (len p)) by lia. decide_b (len p >? len p) false.
   assert (Hnc : (if len p =? 1
                  then let* b0 := idx ((b :: hb) ++ p) (1 + len hb) in Ok (b0 <=? ByteRangeEnd)
                  else Ok false) = Ok false).
@@ -820,7 +747,6 @@ Proof.
     decide_b (x <=? 127) false. reflexivity. }
   rewrite Hnc. cbn [bind].
   rewrite (wrap_int_id (1 + len hb + len p)) by lia.
-  rewrite Hlen'. decide_b (1 + len hb + len p >? 1 + len hb + len p) false.
   replace (1 + len hb) with (len (b :: hb)) at 1 by (rewrite len_cons; lia).
   replace (1 + len hb + len p) with (len (b :: hb) + len p) at 1 by (rewrite len_cons; lia).
   rewrite slice_app_firstn by lia. cbn [bind]. rewrite Z.sub_0_r. rewrite wrap_int_id by lia.
@@ -868,81 +794,41 @@ Proof.
 Qed.
 
 Theorem rlp_string_exact inp :
-  bytes inp -> len inp < 2 ^ 62 -> ~ string_crash inp ->
-  string_decoder_exact rlp_decode_string inp.
+  bytes inp -> len inp < 2 ^ 62 -> string_decoder_exact rlp_decode_string inp.
 Proof.
-  intros Hb Hlen Hnc. destruct (rlp_string_cases inp Hb Hlen) as [E|[(p & E & Hc)|(E & Hc)]].
+  intros Hb Hlen. destruct (rlp_string_cases inp Hb Hlen) as [E|(p & E & Hc)].
   - right. split; [|exact E]. intros p [Hp Hi].
     pose proof (rlp_decode_encode_string p Hp) as Hd. rewrite <- Hi in Hd.
     rewrite Hd in E by exact Hlen. discriminate.
   - left. exists p. split; assumption.
-  - contradiction.
-Qed.
-
-Theorem rlp_string_crash_iff inp :
-  bytes inp -> len inp < 2 ^ 62 -> (rlp_decode_string inp = Err Crash <-> string_crash inp).
-Proof.
-  intros Hb Hlen. split.
-  - intro E. destruct (rlp_string_cases inp Hb Hlen) as [E'|[(p & E' & _)|(_ & Hc)]];
-      [rewrite E in E'; discriminate|rewrite E in E'; discriminate|exact Hc].
-  - apply rlp_string_crash_complete; assumption.
 Qed.
 
 Theorem rlp_string_graceful inp :
-  bytes inp -> len inp < 2 ^ 62 -> ~ string_crash inp -> graceful (rlp_decode_string inp).
+  bytes inp -> len inp < 2 ^ 62 -> graceful (rlp_decode_string inp).
 Proof.
-  intros Hb Hlen Hnc. destruct (rlp_string_cases inp Hb Hlen) as [E|[(p & E & _)|(_ & Hc)]];
-    [rewrite E; exact I|rewrite E; exact I|contradiction].
-Qed.
-
-(* a crashing input is never canonical: the outcome required by the property on it is a user error *)
-Lemma string_crash_not_canonical inp p :
-  bytes inp -> len inp < 2 ^ 62 -> string_crash inp -> ~ canonical_string inp p.
-Proof.
-  intros Hb Hlen Hc [Hp E].
-  pose proof (rlp_string_crash_complete inp Hb Hlen Hc) as Hd.
-  pose proof (rlp_decode_encode_string p Hp) as He. rewrite <- E in He.
-  rewrite He in Hd by exact Hlen. discriminate.
+  intros Hb Hlen. destruct (rlp_string_cases inp Hb Hlen) as [E|(p & E & _)]; rewrite E; exact I.
 Qed.
 
 (* ------------------------------------------------------------------ RLP.decodeList: one item *)
 
-(* the byte strings the item loop of DecodeList steps over *)
+(* the byte strings the item loop of DecodeList steps over: a byte below 0x80, or a canonical prefix with its
+   data, where one data byte under a string prefix must be at least 0x80 *)
 Definition framed (it : list Z) : Prop :=
   (exists b, it = [b] /\ 0 <= b <= 127) \/
-  (exists k b hb data, header k (b :: hb) (len data) /\ it = (b :: hb) ++ data).
+  (exists k b hb data, header k (b :: hb) (len data) /\ it = (b :: hb) ++ data /\
+                       (k = true -> forall x, data = [x] -> 128 <= x)).
 
 Lemma framed_len it : framed it -> 1 <= len it.
 Proof.
-  intros [(b & -> & _)|(k & b & hb & data & _ & ->)].
+  intros [(b & -> & _)|(k & b & hb & data & _ & -> & _)].
   - rewrite len_cons, len_nil. lia.
   - rewrite len_app, len_cons. pose proof (len_nonneg hb). pose proof (len_nonneg data). lia.
 Qed.
 
-Lemma header_huge_any k hb b sz :
-  header k (b :: hb) sz -> 2 ^ 56 <= sz ->
-  (b = 191 \/ b = 255) /\ len hb = 8 /\ forall pos, 2 ^ 63 <= pos + sz -> huge_len_at pos hb.
-Proof.
-  intros H Hov.
-  pose proof (header_len _ _ _ H) as [Hl Hsz]. rewrite len_cons in Hl. rewrite ?max_int_eq in Hsz.
-  assert (Hlong : 55 < sz /\ hb = be_enc sz /\ (b = 183 + blen hb \/ b = 247 + blen hb)).
-  { inversion H as [b' sz' Hs Eb|b' sz' Hs Eb|b' sz' Hs Eb E1 E2|b' sz' Hs Eb E1 E2]; subst;
-      try lia; rewrite ?max_int_eq in Hs; (split; [lia|split; [reflexivity|auto]]). }
-  destruct Hlong as (H55 & -> & Hbb).
-  pose proof (be_enc_len sz ltac:(lia)) as Hlen.
-  pose proof (be_enc_uint sz ltac:(lia)) as Hu.
-  pose proof (be_enc_fuel_bytes 8 sz) as Hb. fold (be_enc sz) in Hb.
-  pose proof (be_uint_bounds _ Hb) as Hbd. rewrite Hu in Hbd.
-  assert (Hl8 : len (be_enc sz) = 8).
-  { destruct (Z_lt_dec (len (be_enc sz)) 8) as [L|L]; [|lia]. exfalso.
-    assert (256 ^ len (be_enc sz) <= 256 ^ 7) by (apply Z.pow_le_mono_r; lia).
-    change (256 ^ 7) with (2 ^ 56) in *. lia. }
-  split; [rewrite <- len_blen in Hbb; lia|]. split; [exact Hl8|].
-  intros pos Hpos.
-  unfold huge_len_at. rewrite be_val_uint, Hu, <- len_blen.
-  split; [exact Hl8|]. split; [|lia].
-  intros x r E. eapply (be_enc_fuel_hd 8 sz); [rewrite pow256_8; lia|exact E].
-Qed.
+(* the canonical-form test of the item loop (inline in the model, named here) *)
+Definition nc_check (inp : list Z) (k : bool) (ds sz i : Z) : res bool :=
+  if k && (sz =? 1) && negb (ds =? i)
+  then let* b := idx inp ds in Ok (b <=? ByteRangeEnd) else Ok false.
 
 (* the three things one loop iteration can do at an in-range item start [i] *)
 Lemma item_step_cases inp i :
@@ -950,13 +836,11 @@ Lemma item_step_cases inp i :
   match read_size inp i with
   | Err e => e = UserOther
   | Ok (k, ds, sz) =>
-      let e := wrap_int (ds + sz) in
-      len inp < e \/
-      (exists it pre post, slice inp i e = Ok it /\ framed it /\ e = i + len it /\
-                           inp = pre ++ it ++ post /\ len pre = i) \/
-      (e <= len inp /\ slice inp i e = Err Crash /\
-       exists pre b l rest, inp = pre ++ b :: l ++ rest /\ len pre = i /\ (b = 191 \/ b = 255) /\
-                            huge_len_at (len pre + 9) l)
+      (sz >? wrap_int (len inp - ds)) = true \/
+      ((sz >? wrap_int (len inp - ds)) = false /\ nc_check inp k ds sz i = Ok true) \/
+      ((sz >? wrap_int (len inp - ds)) = false /\ nc_check inp k ds sz i = Ok false /\
+       exists it pre post, slice inp i (wrap_int (ds + sz)) = Ok it /\ framed it /\
+                           wrap_int (ds + sz) = i + len it /\ inp = pre ++ it ++ post /\ len pre = i)
   end.
 Proof.
   intros Hb Hlen Hi.
@@ -969,9 +853,14 @@ Proof.
   destruct (read_hdr b rest) as [[[k h] sz]|e] eqn:E.
   2:{ apply read_hdr_err in E. exact E. }
   apply read_hdr_sound in E; [|assumption|assumption].
-  cbn [shift_hdr]. cbv zeta.
+  cbn [shift_hdr].
   destruct E as [(-> & Hb127 & -> & ->)|(hb & rest' & -> & Hh & ->)].
-  - right. left. rewrite Z.add_0_r. rewrite wrap_int_id by lia.
+  - right. right. rewrite Z.add_0_r. rewrite Hl.
+    replace (len pre + 1 + len rest - len pre) with (1 + len rest) by lia.
+    rewrite (wrap_int_id (1 + len rest)) by lia.
+    split; [rewrite Z.gtb_ltb; apply Z.ltb_ge; lia|].
+    split; [unfold nc_check; rewrite (Z.eqb_refl (len pre)); cbn [negb]; rewrite andb_false_r; reflexivity|].
+    rewrite wrap_int_id by lia.
     exists [b], pre, rest. unfold is_byte in Hbb. split; [|split; [|split; [|split; reflexivity]]].
     + replace (len pre + 1) with (len pre + len [b]) by (rewrite len_cons, len_nil; lia).
       change (b :: rest) with ([b] ++ rest). apply slice_app.
@@ -979,52 +868,91 @@ Proof.
     + rewrite len_cons, len_nil. lia.
   - pose proof (header_len _ _ _ Hh) as [Hhl Hsz]. rewrite len_cons in Hhl. rewrite ?max_int_eq in Hsz.
     pose proof (len_nonneg hb) as Hhb. pose proof (len_nonneg rest') as Hr'.
-    rewrite (len_app hb rest') in Hl.
-    destruct (Z_le_dec (2 ^ 63) (len pre + (1 + len hb) + sz)) as [Hov|Hov].
-    + (* overflow: header of 9 bytes with a huge length *)
-      right. right.
-      assert (H56 : 2 ^ 56 <= sz) by lia.
-      destruct (header_huge_any k hb b sz Hh H56) as (Hbv & Hl8 & Hhuge).
-      assert (Hov2 : 2 ^ 63 <= len pre + (1 + len hb) + sz < 2 ^ 64) by lia.
-      rewrite (wrap_int_ovf (len pre + (1 + len hb) + sz)) by lia.
-      split; [lia|]. split; [apply slice_crash; lia|].
-      exists pre, b, hb, rest'. split; [reflexivity|]. split; [reflexivity|]. split; [assumption|].
-      apply Hhuge; lia.
-    + destruct (Z_lt_dec (len (pre ++ b :: hb ++ rest')) (len pre + (1 + len hb) + sz)) as [Hinc|Hinc].
-      * left. rewrite wrap_int_id by lia. exact Hinc.
-      * right. left. rewrite wrap_int_id by lia.
-        exists ((b :: hb) ++ firstn (Z.to_nat sz) rest'), pre, (skipn (Z.to_nat sz) rest').
-        assert (Hszr : 0 <= sz <= len rest') by lia.
-        assert (Hlf : len (firstn (Z.to_nat sz) rest') = sz) by (apply len_firstn; lia).
-        split; [|split; [|split; [|split; [|reflexivity]]]].
-        -- replace (len pre + (1 + len hb) + sz)
-             with (len pre + len ((b :: hb) ++ firstn (Z.to_nat sz) rest'))
-             by (rewrite len_app, len_cons; lia).
-           replace (pre ++ b :: hb ++ rest')
-             with (pre ++ ((b :: hb) ++ firstn (Z.to_nat sz) rest') ++ skipn (Z.to_nat sz) rest').
-           ++ apply slice_app.
-           ++ rewrite <- app_assoc. rewrite firstn_skipn. reflexivity.
-        -- right. exists k, b, hb, (firstn (Z.to_nat sz) rest'). rewrite Hlf. split; [assumption|reflexivity].
-        -- rewrite len_app, len_cons. lia.
-        -- rewrite <- app_assoc. rewrite firstn_skipn. reflexivity.
+    rewrite (len_app hb rest') in Hl. rewrite Hl.
+    replace (len pre + 1 + (len hb + len rest') - (len pre + (1 + len hb))) with (len rest') by lia.
+    rewrite (wrap_int_id (len rest')) by lia.
+    destruct (sz >? len rest') eqn:Einc; [left; reflexivity|]. right. leb_cases.
+    assert (Hslice : exists it,
+              slice (pre ++ b :: hb ++ rest') (len pre) (wrap_int (len pre + (1 + len hb) + sz)) = Ok it /\
+              it = (b :: hb) ++ firstn (Z.to_nat sz) rest' /\
+              wrap_int (len pre + (1 + len hb) + sz) = len pre + len it /\
+              pre ++ b :: hb ++ rest' = pre ++ it ++ skipn (Z.to_nat sz) rest').
+    { rewrite wrap_int_id by lia.
+      assert (Hlf : len (firstn (Z.to_nat sz) rest') = sz) by (apply len_firstn; lia).
+      exists ((b :: hb) ++ firstn (Z.to_nat sz) rest'). split; [|split; [reflexivity|split]].
+      - replace (len pre + (1 + len hb) + sz)
+          with (len pre + len ((b :: hb) ++ firstn (Z.to_nat sz) rest'))
+          by (rewrite len_app, len_cons; lia).
+        replace (pre ++ b :: hb ++ rest')
+          with (pre ++ ((b :: hb) ++ firstn (Z.to_nat sz) rest') ++ skipn (Z.to_nat sz) rest').
+        + apply slice_app.
+        + rewrite <- app_assoc. rewrite firstn_skipn. reflexivity.
+      - rewrite len_app, len_cons. lia.
+      - rewrite <- app_assoc. rewrite firstn_skipn. reflexivity. }
+    destruct Hslice as (it & Hsl & Hit & Hend & Hsplit).
+    assert (Hlf : len (firstn (Z.to_nat sz) rest') = sz) by (apply len_firstn; lia).
+    unfold nc_check.
+    replace (len pre + (1 + len hb) =? len pre) with false by (symmetry; apply Z.eqb_neq; lia).
+    cbn [negb]. rewrite andb_true_r.
+    destruct (k && (sz =? 1)) eqn:Ek.
+    + (* string prefix with one byte of data: the byte decides *)
+      apply andb_true_iff in Ek. destruct Ek as [-> Esz]. leb_cases. subst sz.
+      destruct rest' as [|x r]; [rewrite len_nil in Einc; lia|].
+      replace (pre ++ b :: hb ++ x :: r) with ((pre ++ b :: hb) ++ x :: r) by (rewrite <- app_assoc; reflexivity).
+      replace (len pre + (1 + len hb)) with (len (pre ++ b :: hb)) by (rewrite len_app, len_cons; lia).
+      rewrite idx_app. cbn [bind]. unfold ByteRangeEnd.
+      destruct (x <=? 127) eqn:Ex; [left; split; reflexivity|right]. leb_cases.
+      split; [reflexivity|]. split; [reflexivity|].
+      rewrite <- app_assoc. cbn [app].
+      replace (len (pre ++ b :: hb)) with (len pre + (1 + len hb)) by (rewrite len_app, len_cons; lia).
+      exists it, pre, (skipn (Z.to_nat 1) (x :: r)). split; [exact Hsl|]. split; [|split; [exact Hend|split; [exact Hsplit|reflexivity]]].
+      right. exists true, b, hb, (firstn (Z.to_nat 1) (x :: r)). rewrite Hlf. split; [exact Hh|]. split; [exact Hit|].
+      intros _ x' Ex'. simpl in Ex'. inversion Ex'. subst. lia.
+    + right. split; [reflexivity|]. split; [reflexivity|].
+      exists it, pre, (skipn (Z.to_nat sz) rest'). split; [exact Hsl|]. split; [|split; [exact Hend|split; [exact Hsplit|reflexivity]]].
+      right. exists k, b, hb, (firstn (Z.to_nat sz) rest'). rewrite Hlf. split; [exact Hh|]. split; [exact Hit|].
+      intros -> x' Ex'. cbn [andb] in Ek. leb_cases.
+      rewrite Ex' in Hlf. rewrite len_cons, len_nil in Hlf. lia.
 Qed.
 
 Lemma item_step_complete pre it post :
   framed it -> bytes (pre ++ it ++ post) -> len (pre ++ it ++ post) < 2 ^ 62 ->
   exists k ds sz, read_size (pre ++ it ++ post) (len pre) = Ok (k, ds, sz) /\
-                  ds + sz = len pre + len it.
+                  ds + sz = len pre + len it /\
+                  (sz >? wrap_int (len (pre ++ it ++ post) - ds)) = false /\
+                  nc_check (pre ++ it ++ post) k ds sz (len pre) = Ok false.
 Proof.
-  intros Hf Hb Hlen.
-  destruct Hf as [(b & -> & Hb127)|(k & b & hb & data & Hh & ->)].
+  intros Hf Hb Hlen. pose proof (len_nonneg pre) as Hp. pose proof (len_nonneg post) as Hpost.
+  destruct Hf as [(b & -> & Hb127)|(k & b & hb & data & Hh & -> & Hcond)].
   - change (pre ++ [b] ++ post) with (pre ++ b :: post) in *.
     rewrite read_size_app by assumption.
     unfold read_hdr. decide_b (b <=? 127) true. cbn [shift_hdr].
-    eexists _, _, _. split; [reflexivity|]. rewrite len_cons, len_nil. lia.
+    eexists _, _, _. split; [reflexivity|]. rewrite len_cons, len_nil. split; [lia|].
+    rewrite len_app, len_cons in *. rewrite Z.add_0_r.
+    replace (len pre + (1 + len post) - len pre) with (1 + len post) by lia.
+    rewrite wrap_int_id by lia. split; [rewrite Z.gtb_ltb; apply Z.ltb_ge; lia|].
+    unfold nc_check. rewrite (Z.eqb_refl (len pre)). cbn [negb]. rewrite andb_false_r. reflexivity.
   - replace (pre ++ ((b :: hb) ++ data) ++ post) with (pre ++ b :: hb ++ (data ++ post)) in *
       by (rewrite <- !app_assoc; reflexivity).
     rewrite read_size_app by assumption.
     rewrite (read_hdr_complete k b hb (len data) (data ++ post) Hh). cbn [shift_hdr].
-    eexists _, _, _. split; [reflexivity|]. rewrite len_app, len_cons. lia.
+    pose proof (len_nonneg hb) as Hhb. pose proof (len_nonneg data) as Hd.
+    eexists _, _, _. split; [reflexivity|]. rewrite len_app, len_cons. split; [lia|].
+    assert (Hl : len (pre ++ b :: hb ++ data ++ post) = len pre + 1 + len hb + len data + len post)
+      by (rewrite len_app, len_cons, !len_app; lia).
+    rewrite Hl in *.
+    replace (len pre + 1 + len hb + len data + len post - (len pre + (1 + len hb))) with (len data + len post) by lia.
+    rewrite wrap_int_id by lia. split; [rewrite Z.gtb_ltb; apply Z.ltb_ge; lia|].
+    unfold nc_check.
+    replace (len pre + (1 + len hb) =? len pre) with false by (symmetry; apply Z.eqb_neq; lia).
+    cbn [negb]. rewrite andb_true_r.
+    destruct (k && (len data =? 1)) eqn:Ek; [|reflexivity].
+    apply andb_true_iff in Ek. destruct Ek as [-> E1]. leb_cases.
+    destruct data as [|x [|y r]]; rewrite ?len_cons, ?len_nil in E1; try (pose proof (len_nonneg r)); try lia.
+    replace (pre ++ b :: hb ++ [x] ++ post) with ((pre ++ b :: hb) ++ x :: post) by (rewrite <- !app_assoc; reflexivity).
+    replace (len pre + (1 + len hb)) with (len (pre ++ b :: hb)) by (rewrite len_app, len_cons; lia).
+    rewrite idx_app. cbn [bind]. specialize (Hcond eq_refl x eq_refl). unfold ByteRangeEnd.
+    decide_b (x <=? 127) false. reflexivity.
 Qed.
 
 (* ------------------------------------------------------------------ RLP.decodeList: the loop *)
@@ -1035,9 +963,11 @@ Lemma list_loop_unfold fuel inp lds done i e r :
     match fuel with
     | O => Err OutOfFuel
     | S fuel' =>
-      let* (_, ids, isz) := read_size inp i in
+      let* (k, ids, isz) := read_size inp i in
+      if isz >? wrap_int (len inp - ids) then Err ErrIncompleteInput else
+      let* nonCanon := nc_check inp k ids isz i in
+      if (nonCanon : bool) then Err ErrNonCanonicalInput else
       let e := wrap_int (ids + isz) in
-      if e >? len inp then Err ErrIncompleteInput else
       let* it := slice inp i e in
       list_loop fuel' inp lds (done ++ [it]) e e (wrap_int (r + wrap_int (e - i)))
     end
@@ -1052,6 +982,15 @@ Lemma split_at_le (inp : list Z) i :
 Proof.
   intro H. exists (firstn (Z.to_nat i) inp), (skipn (Z.to_nat i) inp).
   split; [symmetry; apply firstn_skipn|]. apply len_firstn. lia.
+Qed.
+
+Lemma app_eq_len_l (a b c d : list Z) : a ++ b = c ++ d -> len a = len c -> a = c /\ b = d.
+Proof.
+  intros E L.
+  assert (a = c).
+  { apply (f_equal (firstn (Z.to_nat (len a)))) in E. rewrite firstn_len_app in E.
+    rewrite L in E. rewrite firstn_len_app in E. exact E. }
+  subst c. apply app_inv_head in E. auto.
 Qed.
 
 Lemma list_loop_sound fuel : forall inp lds done i e r ret e' r',
@@ -1071,13 +1010,14 @@ Proof.
     assert (Hi' : 0 <= i < len inp) by lia.
     pose proof (item_step_cases inp i Hb Hlen Hi') as Hstep.
     destruct (read_size inp i) as [[[k ds] sz]|err]; [|discriminate].
-    cbn [bind] in H. cbv zeta in Hstep, H.
-    destruct Hstep as [Hinc|[(it & pre & post & Hsl & Hf & He & Hinp & Hpre)|(Hle & Hsl & _)]].
-    + decide_in H (wrap_int (ds + sz) >? len inp) true. discriminate.
-    + pose proof (framed_len it Hf) as Hlit.
+    cbn [bind] in H.
+    destruct Hstep as [Hinc|[(Hinc & Hnc)|(Hinc & Hnc & it & pre & post & Hsl & Hf & He & Hinp & Hpre)]].
+    + rewrite Hinc in H. discriminate.
+    + rewrite Hinc, Hnc in H. cbn [bind] in H. discriminate.
+    + rewrite Hinc, Hnc in H. cbn [bind] in H. cbv zeta in H.
+      pose proof (framed_len it Hf) as Hlit.
       assert (Hle : wrap_int (ds + sz) <= len inp).
       { rewrite He, Hinp, !len_app. pose proof (len_nonneg post). lia. }
-      decide_in H (wrap_int (ds + sz) >? len inp) false.
       rewrite Hsl in H. cbn [bind] in H. rewrite He in H.
       replace (i + len it - i) with (len it) in H by lia.
       rewrite (wrap_int_id (len it)) in H by lia. rewrite wrap_int_id in H by lia.
@@ -1089,52 +1029,42 @@ Proof.
       { unfold end_index. destruct new; simpl concat; repeat rewrite len_app; rewrite ?len_nil; lia. }
       split; [discriminate|].
       exists pre, post'. split; [|assumption].
-      (* inp = pre ++ it ++ post = pre' ++ concat new ++ post' with len pre' = len pre + len it *)
       rewrite Hinp in Hinp'. rewrite Hinp.
-      assert (Epre : pre' = pre ++ it).
-      { rewrite (app_assoc pre it post) in Hinp'.
-        apply (f_equal (firstn (Z.to_nat (len (pre ++ it))))) in Hinp'.
-        rewrite firstn_len_app in Hinp'.
-        replace (len (pre ++ it)) with (len pre') in Hinp' by (rewrite len_app; lia).
-        rewrite firstn_len_app in Hinp'. auto. }
-      subst pre'. rewrite <- !app_assoc in Hinp'. apply app_inv_head in Hinp'.
-      apply app_inv_head in Hinp'. subst post. rewrite <- app_assoc. reflexivity.
-    + decide_in H (wrap_int (ds + sz) >? len inp) false. rewrite Hsl in H. discriminate.
+      rewrite (app_assoc pre it post) in Hinp'.
+      apply app_eq_len_l in Hinp'; [|rewrite len_app; lia].
+      destruct Hinp' as [<- ->]. rewrite <- !app_assoc. reflexivity.
   - inversion H; subst. exists []. rewrite app_nil_r. simpl. rewrite len_nil.
     repeat split; try lia; try constructor.
     exact (split_at_le inp i Hi).
 Qed.
 
+(* the loop never fails otherwise than with a user error: no crash, and the fuel is never exhausted *)
 Lemma list_loop_err fuel : forall inp lds done i e r err,
   bytes inp -> len inp < 2 ^ 62 -> 0 <= i <= len inp -> 0 <= r <= i ->
   len inp - i < Z.of_nat fuel ->
-  list_loop fuel inp lds done i e r = Err err ->
-  err = UserOther \/ (err = Crash /\ has_huge_len inp).
+  list_loop fuel inp lds done i e r = Err err -> err = UserOther.
 Proof.
   induction fuel as [|fuel IH]; intros inp lds done i e r err Hb Hlen Hi Hr Hfuel H;
     rewrite list_loop_unfold in H; destruct (r <? lds) eqn:Er; leb_cases; try discriminate.
   - simpl in Hfuel. lia.
   - destruct (Z.eq_dec i (len inp)) as [Ei|Ei].
-    { rewrite read_size_oob in H by lia. inversion H. left. reflexivity. }
+    { rewrite read_size_oob in H by lia. inversion H. reflexivity. }
     assert (Hi' : 0 <= i < len inp) by lia.
     pose proof (item_step_cases inp i Hb Hlen Hi') as Hstep.
     destruct (read_size inp i) as [[[k ds] sz]|err'].
-    2:{ cbn [bind] in H. left. congruence. }
-    cbn [bind] in H. cbv zeta in Hstep, H.
-    destruct Hstep as [Hinc|[(it & pre & post & Hsl & Hf & He & Hinp & Hpre)|(Hle & Hsl & Hh)]].
-    + decide_in H (wrap_int (ds + sz) >? len inp) true. inversion H. left. reflexivity.
-    + pose proof (framed_len it Hf) as Hlit.
+    2:{ cbn [bind] in H. congruence. }
+    cbn [bind] in H.
+    destruct Hstep as [Hinc|[(Hinc & Hnc)|(Hinc & Hnc & it & pre & post & Hsl & Hf & He & Hinp & Hpre)]].
+    + rewrite Hinc in H. inversion H. reflexivity.
+    + rewrite Hinc, Hnc in H. cbn [bind] in H. inversion H. reflexivity.
+    + rewrite Hinc, Hnc in H. cbn [bind] in H. cbv zeta in H.
+      pose proof (framed_len it Hf) as Hlit.
       assert (Hle : wrap_int (ds + sz) <= len inp).
       { rewrite He, Hinp, !len_app. pose proof (len_nonneg post). lia. }
-      decide_in H (wrap_int (ds + sz) >? len inp) false.
       rewrite Hsl in H. cbn [bind] in H. rewrite He in H.
       replace (i + len it - i) with (len it) in H by lia.
       rewrite (wrap_int_id (len it)) in H by lia. rewrite wrap_int_id in H by lia.
       apply IH in H; try assumption; try lia.
-    + decide_in H (wrap_int (ds + sz) >? len inp) false. rewrite Hsl in H. cbn [bind] in H.
-      right. split; [congruence|].
-      destruct Hh as (pre & b & l & rest & Hinp & Hpre & Hbv & Hhuge).
-      exists pre, b, l, rest. split; [assumption|]. split; assumption.
 Qed.
 
 Lemma list_loop_complete : forall rest inp lds done fuel pre post e r,
@@ -1153,14 +1083,13 @@ Proof.
     decide_b (r <? lds) true.
     destruct fuel as [|fuel]; [simpl in Hfuel; lia|].
     assert (Hinp2 : inp = pre ++ it ++ (concat rest ++ post)) by (rewrite Hinp, <- app_assoc; reflexivity).
-    destruct (item_step_complete pre it (concat rest ++ post) Hfit) as (k & ds & sz & Hrs & Hds);
+    destruct (item_step_complete pre it (concat rest ++ post) Hfit) as (k & ds & sz & Hrs & Hds & Hinc & Hnc);
       [rewrite <- Hinp2; assumption|rewrite <- Hinp2; assumption|].
-    rewrite <- Hinp2 in Hrs. rewrite Hrs. cbn [bind]. cbv zeta.
+    rewrite <- Hinp2 in Hrs, Hinc, Hnc. rewrite Hrs. cbn [bind]. rewrite Hinc, Hnc. cbn [bind]. cbv zeta.
     assert (Htot : len inp = len pre + len it + len (concat rest ++ post))
       by (rewrite Hinp2, !len_app; lia).
     pose proof (len_nonneg (concat rest ++ post)). pose proof (len_nonneg pre).
     rewrite Hds. rewrite (wrap_int_id (len pre + len it)) by lia.
-    decide_b (len pre + len it >? len inp) false.
     assert (Hsl : slice inp (len pre) (len pre + len it) = Ok it) by (rewrite Hinp2; apply slice_app).
     rewrite Hsl. cbn [bind].
     replace (len pre + len it - len pre) with (len it) by lia.
@@ -1204,19 +1133,9 @@ Proof.
     split; [exact Hh|]. apply list_frame_header. exact Hh.
 Qed.
 
-Lemma app_eq_len_l (a b c d : list Z) : a ++ b = c ++ d -> len a = len c -> a = c /\ b = d.
-Proof.
-  intros E L.
-  assert (a = c).
-  { apply (f_equal (firstn (Z.to_nat (len a)))) in E. rewrite firstn_len_app in E.
-    rewrite L in E. rewrite firstn_len_app in E. exact E. }
-  subst c. apply app_inv_head in E. auto.
-Qed.
-
 Definition list_outcome (inp : list Z) (r : res (list (list Z))) : Prop :=
   r = Err UserOther \/
-  (exists items, r = Ok items /\ Forall framed items /\ inp = list_frame (concat items)) \/
-  (r = Err Crash /\ has_huge_len inp).
+  (exists items, r = Ok items /\ Forall framed items /\ inp = list_frame (concat items)).
 
 Lemma rlp_list_cases inp :
   bytes inp -> len inp < 2 ^ 62 -> list_outcome inp (rlp_decode_list inp).
@@ -1241,9 +1160,11 @@ Proof.
     subst sz. cbn [bind]. rewrite Hlen'.
     destruct (1 =? 1 + len hb + len rest') eqn:E1; leb_cases; [|left; reflexivity].
     assert (hb = []) by (apply len_zero_nil; lia). assert (rest' = []) by (apply len_zero_nil; lia).
-    subst hb rest'. unfold list_outcome. right. left. exists []. split; [reflexivity|]. split; [constructor|].
+    subst hb rest'. unfold list_outcome. right. exists []. split; [reflexivity|]. split; [constructor|].
     simpl concat. symmetry. apply (list_frame_header [b] []). exact Hh.
-  - destruct (wrap_int (sz + (1 + len hb)) >? len (b :: hb ++ rest')) eqn:Einc; [left; reflexivity|].
+  - rewrite Hlen'. replace (1 + len hb + len rest' - (1 + len hb)) with (len rest') by lia.
+    rewrite (wrap_int_id (len rest')) by lia.
+    destruct (sz >? len rest') eqn:Einc; [left; reflexivity|]. leb_cases.
     destruct (list_loop (S (length (b :: hb ++ rest'))) (b :: hb ++ rest') sz [] (1 + len hb) 0 0)
       as [[[ret e'] r']|err] eqn:EL.
     + apply list_loop_sound in EL; try assumption; try lia.
@@ -1258,16 +1179,15 @@ Proof.
         by (rewrite Hinp, !len_app; lia).
       pose proof (len_nonneg post) as Hpost.
       rewrite wrap_int_id by lia. cbn [bind].
-      destruct (1 + len hb + len (concat new) =? len (b :: hb ++ rest')) eqn:Etr; leb_cases;
+      destruct (1 + len hb + len (concat new) =? 1 + len hb + len rest') eqn:Etr; leb_cases;
         [|left; reflexivity].
-      cbn [negb]. unfold list_outcome. right. left. exists new. split; [reflexivity|]. split; [assumption|].
+      cbn [negb]. unfold list_outcome. right. exists new. split; [reflexivity|]. split; [assumption|].
       assert (post = []) by (apply len_zero_nil; lia). subst post. rewrite app_nil_r in Hinp.
       change (b :: hb ++ rest') with ((b :: hb) ++ rest') in Hinp.
       apply app_eq_len_l in Hinp; [|rewrite len_cons; lia].
       destruct Hinp as [<- ->]. symmetry. apply (list_frame_header (b :: hb)). rewrite Eeq. exact Hh.
     + apply list_loop_err in EL; try assumption; try lia.
-      * destruct EL as [->|[-> Hh']]; [left; reflexivity|].
-        unfold list_outcome. right. right. split; [reflexivity|assumption].
+      * subst err. left. reflexivity.
       * unfold len. rewrite Nat2Z.inj_succ. lia.
 Qed.
 
@@ -1304,8 +1224,9 @@ Proof.
   rewrite (read_hdr_complete false b hb (len (concat items)) (concat items) Hh).
   cbn [shift_hdr bind]. rewrite Z.add_0_l.
   decide_b (len (concat items) =? 0) false.
-  rewrite (wrap_int_id (len (concat items) + (1 + len hb))) by lia.
-  rewrite Hlen'. decide_b (len (concat items) + (1 + len hb) >? 1 + len hb + len (concat items)) false.
+  rewrite Hlen'. replace (1 + len hb + len (concat items) - (1 + len hb)) with (len (concat items)) by lia.
+  rewrite (wrap_int_id (len (concat items))) by lia.
+  decide_b (len (concat items) >? len (concat items)) false.
   replace (1 + len hb) with (len (b :: hb)) by (rewrite len_cons; lia).
   rewrite (list_loop_complete items ((b :: hb) ++ concat items) (len (concat items)) []
              (S (length ((b :: hb) ++ concat items))) (b :: hb) [] 0 0).
@@ -1323,7 +1244,7 @@ Proof.
   - rewrite len_cons. lia.
 Qed.
 
-(* ------------------------------------------------------------------ items: framed = canonical or 0x81-form *)
+(* ------------------------------------------------------------------ items: framed = canonical *)
 
 Lemma encode_string_has_header p :
   (forall x, p = [x] -> 128 <= x) -> len p <= max_int ->
@@ -1356,37 +1277,23 @@ Proof.
           rewrite (len_cons _ (_ ++ _)) || rewrite (len_cons _ (x :: y :: r)); rewrite ?len_app;
           try (pose proof (len_nonneg (be_enc (len (x :: y :: r))))); lia. }
       destruct (encode_string_has_header p Hx Hlp) as (b & hb & Hh & E).
-      right. exists true, b, hb, p. split; assumption.
+      right. exists true, b, hb, p. split; [assumption|]. split; [assumption|]. intros _. exact Hx.
   - assert (Hlp : len payload <= max_int).
     { revert Hm. unfold list_frame. change blen with len. destruct (len payload <=? 55); cbv zeta;
         rewrite len_cons, ?len_app; try (pose proof (len_nonneg (be_enc (len payload)))); lia. }
     destruct (list_frame_has_header payload Hlp) as (b & hb & Hh & E).
-    right. exists false, b, hb, payload. split; assumption.
+    right. exists false, b, hb, payload. split; [assumption|]. split; [assumption|]. discriminate.
 Qed.
 
-Lemma item_nc1_framed it : item_nc1 it -> framed it.
+Lemma framed_item it : framed it -> bytes it -> item_ok it.
 Proof.
-  intros (x & Hx & ->). right. exists true, 129, [], [x]. split; [|reflexivity].
-  rewrite len_cons, len_nil. constructor; lia.
-Qed.
-
-Lemma framed_item it : framed it -> bytes it -> item_ok it \/ item_nc1 it.
-Proof.
-  intros [(b & -> & Hb)|(k & b & hb & data & Hh & ->)] Hbytes.
-  - left. left. exists [b]. split; [assumption|]. unfold encode_string. decide_b (b <? 128) true. reflexivity.
+  intros [(b & -> & Hb)|(k & b & hb & data & Hh & -> & Hcond)] Hbytes.
+  - left. exists [b]. split; [assumption|]. unfold encode_string. decide_b (b <? 128) true. reflexivity.
   - assert (Hbd : bytes data) by (apply bytes_app in Hbytes; tauto).
     destruct k.
-    + assert (Hcase : (exists x, data = [x] /\ x < 128) \/ (forall x, data = [x] -> 128 <= x)).
-      { destruct data as [|x [|y r]].
-        - right. intros x E. discriminate.
-        - destruct (Z_lt_dec x 128); [left; eauto|right]. intros x' E. inversion E. subst. lia.
-        - right. intros x' E. discriminate. }
-      destruct Hcase as [(x & -> & Hx)|Hx].
-      * right. exists x. apply bytes_cons in Hbd. destruct Hbd as [Hbx _]. unfold is_byte in Hbx.
-        split; [lia|]. rewrite len_cons, len_nil in Hh.
-        inversion Hh as [b' sz' Hs Eb E1 E2|b' sz' Hs Eb|b' sz' Hs Eb|b' sz' Hs Eb]; subst; [reflexivity|lia].
-      * left. left. exists data. split; [assumption|]. symmetry. apply encode_string_header; assumption.
-    + left. right. exists data. split; [assumption|]. symmetry. apply list_frame_header. assumption.
+    + left. exists data. split; [assumption|]. symmetry. apply encode_string_header; [assumption|].
+      apply Hcond. reflexivity.
+    + right. exists data. split; [assumption|]. symmetry. apply list_frame_header. assumption.
 Qed.
 
 Lemma len_concat_in (it : list Z) items : In it items -> len it <= len (concat items).
@@ -1417,84 +1324,47 @@ Qed.
 
 (* ------------------------------------------------------------------ theorems about RLP.decodeList *)
 
-Theorem rlp_decode_list_accepted items :
-  Forall (fun it => item_ok it \/ item_nc1 it) items ->
+Theorem rlp_decode_encode_list items :
+  Forall item_ok items ->
   bytes (list_frame (concat items)) -> len (list_frame (concat items)) < 2 ^ 62 ->
   rlp_decode_list (list_frame (concat items)) = Ok items.
 Proof.
   intros Hf Hb Hlen. apply rlp_list_framed; try assumption.
   pose proof (list_frame_len (concat items)) as Hfl.
   rewrite Forall_forall in *. intros it Hin.
-  destruct (Hf it Hin) as [H|H]; [|apply item_nc1_framed; exact H].
-  apply item_ok_framed; [exact H|]. pose proof (len_concat_in it items Hin). rewrite ?max_int_eq. lia.
+  apply item_ok_framed; [apply Hf; exact Hin|]. pose proof (len_concat_in it items Hin). rewrite ?max_int_eq. lia.
 Qed.
 
-Theorem rlp_decode_encode_list items :
-  Forall item_ok items ->
-  bytes (list_frame (concat items)) -> len (list_frame (concat items)) < 2 ^ 62 ->
-  rlp_decode_list (list_frame (concat items)) = Ok items.
-Proof.
-  intros Hf. apply rlp_decode_list_accepted. eapply Forall_impl; [|exact Hf]. intros a H; left; exact H.
-Qed.
-
-Lemma rlp_list_ok_accepted inp items :
-  bytes inp -> Forall framed items -> inp = list_frame (concat items) -> accepted_list inp items.
+Lemma rlp_list_ok_canonical inp items :
+  bytes inp -> Forall framed items -> inp = list_frame (concat items) -> canonical_list inp items.
 Proof.
   intros Hb Hf E. split; [|exact E].
   subst inp. apply list_frame_bytes_payload in Hb. apply bytes_concat_forall in Hb.
   rewrite Forall_forall in *. intros it Hin. apply framed_item; auto.
 Qed.
 
-Theorem rlp_list_accepts inp :
-  bytes inp -> len inp < 2 ^ 62 -> no_huge_len inp -> list_decoder_accepts rlp_decode_list inp.
-Proof.
-  intros Hb Hlen Hnh. destruct (rlp_list_cases inp Hb Hlen) as [E|[(items & E & Hf & Hi)|(E & Hh)]].
-  - right. split; [|exact E]. intros items [Hacc Hi].
-    pose proof (rlp_decode_list_accepted items Hacc) as Hd. rewrite <- Hi in Hd.
-    rewrite Hd in E by assumption. discriminate.
-  - left. exists items. split; [|exact E]. apply rlp_list_ok_accepted; assumption.
-  - contradiction.
-Qed.
-
-(* soundness without any guard: whatever is returned is the framing of the returned items *)
-Theorem rlp_list_sound inp items :
-  bytes inp -> len inp < 2 ^ 62 -> rlp_decode_list inp = Ok items -> accepted_list inp items.
-Proof.
-  intros Hb Hlen E. destruct (rlp_list_cases inp Hb Hlen) as [E'|[(items' & E' & Hf & Hi)|(E' & _)]];
-    rewrite E in E'; try discriminate.
-  inversion E'; subst items'. apply rlp_list_ok_accepted; assumption.
-Qed.
-
 Theorem rlp_list_exact inp :
-  bytes inp -> len inp < 2 ^ 62 -> no_huge_len inp ->
-  (forall items, accepted_list inp items -> Forall item_ok items) ->
-  list_decoder_exact rlp_decode_list inp.
+  bytes inp -> len inp < 2 ^ 62 -> list_decoder_exact rlp_decode_list inp.
 Proof.
-  intros Hb Hlen Hnh Hnc. destruct (rlp_list_accepts inp Hb Hlen Hnh) as [(items & Hacc & E)|(Hno & E)].
-  - left. exists items. split; [|exact E]. split; [apply Hnc; exact Hacc|apply Hacc].
-  - right. split; [|exact E]. intros items [Hf Hi]. apply (Hno items). split; [|exact Hi].
-    eapply Forall_impl; [|exact Hf]. intros a H; left; exact H.
+  intros Hb Hlen. destruct (rlp_list_cases inp Hb Hlen) as [E|(items & E & Hf & Hi)].
+  - right. split; [|exact E]. intros items [Hok Hi].
+    pose proof (rlp_decode_encode_list items Hok) as Hd. rewrite <- Hi in Hd.
+    rewrite Hd in E by assumption. discriminate.
+  - left. exists items. split; [|exact E]. apply rlp_list_ok_canonical; assumption.
 Qed.
 
-Theorem rlp_list_crash_only_huge inp :
-  bytes inp -> len inp < 2 ^ 62 -> rlp_decode_list inp = Err Crash -> has_huge_len inp.
+Theorem rlp_list_sound inp items :
+  bytes inp -> len inp < 2 ^ 62 -> rlp_decode_list inp = Ok items -> canonical_list inp items.
 Proof.
-  intros Hb Hlen E. destruct (rlp_list_cases inp Hb Hlen) as [E'|[(items' & E' & _)|(_ & Hh)]];
-    [rewrite E in E'; discriminate|rewrite E in E'; discriminate|exact Hh].
+  intros Hb Hlen E. destruct (rlp_list_cases inp Hb Hlen) as [E'|(items' & E' & Hf & Hi)];
+    rewrite E in E'; try discriminate.
+  inversion E'; subst items'. apply rlp_list_ok_canonical; assumption.
 Qed.
 
 Theorem rlp_list_graceful inp :
-  bytes inp -> len inp < 2 ^ 62 -> no_huge_len inp -> graceful (rlp_decode_list inp).
+  bytes inp -> len inp < 2 ^ 62 -> graceful (rlp_decode_list inp).
 Proof.
-  intros Hb Hlen Hnh. destruct (rlp_list_cases inp Hb Hlen) as [E|[(p & E & _)|(_ & Hc)]];
-    [rewrite E; exact I|rewrite E; exact I|contradiction].
-Qed.
-
-(* string_crash is an instance of has_huge_len, except for the one input [0x81] *)
-Lemma string_crash_huge inp : string_crash inp -> inp = [129] \/ has_huge_len inp.
-Proof.
-  intros [E|(l & rest & E & Hh)]; [left; exact E|right].
-  exists [], 191, l, rest. split; [exact E|]. split; [left; reflexivity|exact Hh].
+  intros Hb Hlen. destruct (rlp_list_cases inp Hb Hlen) as [E|(p & E & _)]; rewrite E; exact I.
 Qed.
 
 (* ------------------------------------------------------------------ the recursive encoder *)
@@ -1595,35 +1465,3 @@ Theorem rlp_decode_encode_nested_string p :
   bytes p -> len (encode (Str p)) < 2 ^ 62 -> rlp_decode_string (encode (Str p)) = Ok p.
 Proof. intros. simpl. apply rlp_decode_encode_string; assumption. Qed.
 
-(* ------------------------------------------------------------------ refutations *)
-
-Lemma not_item_ok_129_5 : ~ item_ok [129; 5].
-Proof.
-  intros [(p & Hp & E)|(payload & Hp & E)].
-  - unfold encode_string in E. destruct p as [|x [|y r]].
-    + discriminate.
-    + destruct (x <? 128) eqn:Ex; leb_cases; [discriminate|]. inversion E. lia.
-    + destruct (blen (x :: y :: r) <=? 55); cbv zeta in E.
-      * inversion E.
-      * inversion E. destruct (be_enc (blen (x :: y :: r))) as [|a [|a' t]]; simpl in *; try discriminate.
-  - unfold list_frame in E. destruct (blen payload <=? 55) eqn:El; cbv zeta in E.
-    + assert (E1 := f_equal (hd 0) E). cbn [hd] in E1. pose proof (len_nonneg payload).
-      change blen with len in E1. lia.
-    + assert (E1 := f_equal (hd 0) E). cbn [hd] in E1.
-      pose proof (len_nonneg (be_enc (blen payload))). change blen with len in *. lia.
-Qed.
-
-Theorem rlp_list_exact_refuted :
-  exists inp, bytes inp /\ len inp < 2 ^ 62 /\ no_huge_len inp /\ ~ list_decoder_exact rlp_decode_list inp.
-Proof.
-  exists [194; 129; 5]. split; [repeat constructor; unfold is_byte; lia|]. split; [reflexivity|].
-  split.
-  - intros (pre & b & l & rest & E & _ & (H8 & _)).
-    assert (E' : len [194; 129; 5] = len (pre ++ b :: l ++ rest)) by (rewrite <- E; reflexivity).
-    rewrite len_app, (len_cons b), len_app in E'.
-    change blen with len in H8. pose proof (len_nonneg pre). pose proof (len_nonneg rest).
-    change (len [194; 129; 5]) with 3 in E'. lia.
-  - intros [(items & [Hf _] & E)|(_ & E)].
-    + vm_compute in E. inversion E; subst. inversion Hf; subst. apply not_item_ok_129_5. assumption.
-    + vm_compute in E. discriminate.
-Qed.
